@@ -12,7 +12,6 @@ import (
 	"strings"
 	"sync"
 
-	"go.arcalot.io/dgraph"
 	"go.arcalot.io/log/v2"
 	"go.flow.arcalot.io/engine/config"
 	"go.flow.arcalot.io/engine/internal/step"
@@ -149,7 +148,14 @@ func (s *vScope) Serialize(data any) (any, error) {
 var verifRejectStageInput, verifRejectOutput bool
 var verifValidated, verifOutputValidated int
 
+// verifInPrepare: while the real Prepare runs, (*ObjectSchema).Unserialize is the conversion of step
+// configuration maps (zz_verif_prep.go); at run time it is the validation of a stage input.
+var verifInPrepare int
+
 func verifObjectUnserialize(o *schema.ObjectSchema, data any) (any, error) {
+	if verifInPrepare > 0 {
+		return verifObjectUnserializeP(o, data)
+	}
 	verifValidated++
 	if verifRejectStageInput {
 		return nil, &verifrt.Err{Msg: "stage input does not match its schema"}
@@ -565,43 +571,30 @@ func verifPrepare(t tWorkflow) (*executableWorkflow, *vRun) {
 
 func verifPrepareH(t tWorkflow, holder *vRunHolder) (*executableWorkflow, *vRun) {
 	run := newRun()
-	e := &executor{logger: vLogger{}, config: &config.Config{}}
-	dag := dgraph.New[*DAGItem]()
-	_, err := dag.AddNode(WorkflowInputKey, &DAGItem{Kind: DAGItemKindInput})
-	verifrt.Assert(err == nil, "harness: input node added")
-	wf := &Workflow{Steps: map[string]any{}, Outputs: t.outputs}
-	life := verifLifecycle(verifPluginBase())
-	runnables := map[string]step.RunnableStep{}
-	lifecycles := map[string]step.Lifecycle[step.LifecycleStageWithSchema]{}
-	runData := map[string]map[string]any{}
+	base := verifPluginBase()
+	prov := &vProvider{run: run, holder: holder, base: base, life: verifLifecycle(base), outcomes: map[string]map[string]int{}}
 	for _, ts := range t.steps {
-		data := map[any]any{}
-		for k, v := range ts.fields {
-			data[k] = v
-		}
-		wf.Steps[ts.id] = data
-		rn := &vRunnable{holder: holder, run: run, id: ts.id, life: life, outcome: ts.outcome}
-		runnables[ts.id] = rn
-		lifecycles[ts.id] = life
-		runData[ts.id] = map[string]any{}
+		prov.outcomes[ts.id] = ts.outcome
 		run.order = append(run.order, ts.id)
-		_, err := e.buildOutputProperties(life, ts.id, rn, dag) // real: stage and output nodes
-		verifrt.Assert(err == nil, "harness: stage nodes added")
 	}
-	err = e.connectStepDependencies(wf, nil, lifecycles, dag, nil) // real: lifecycle and expression edges
-	verifrt.Assert(err == nil, "harness: template is accepted by connectStepDependencies")
-	outSchemas := map[string]*schema.StepOutputSchema{}
-	for outputID, outputData := range wf.Outputs {
-		// mirrors Prepare stage 6 (executor.go:169-203) without schema inference
-		os := schema.NewStepOutputSchema(verifEmptyScope(outputID), nil, outputID == "error")
-		outSchemas[outputID] = os
-		item := &DAGItem{Kind: DAGItemKindOutput, OutputID: outputID, Data: outputData, OutputSchema: os}
-		node, err := dag.AddNode(item.String(), item)
-		verifrt.Assert(err == nil, "harness: output node added")
-		err = e.prepareDependencies(nil, outputData, node, []string{}, nil, dag)
-		verifrt.Assert(err == nil, "harness: output dependencies accepted")
+	e := &executor{logger: vLogger{}, config: &config.Config{}, stepRegistry: &vRegistry{p: prov}}
+	return verifRealPrepare(e, verifWorkflow(t)), run
+}
+
+// verifRealPrepare runs the REAL (*executor).Prepare on a template (stub registry / providers, stub
+// schema typing): the prepared workflow the run-loop harnesses execute is the one Prepare returns, not a
+// hand-made copy of its fields.
+func verifRealPrepare(e *executor, wf *Workflow) *executableWorkflow {
+	plugin.VerifScopeHook = func(data any) (any, error) { return &vScope{}, nil }
+	verifInPrepare++
+	res, err := e.Prepare(wf, nil)
+	verifInPrepare--
+	verifrt.Assert(err == nil, "harness: the template is accepted by Prepare")
+	if err != nil {
+		verifrt.Event("Prepare: " + err.Error())
+		verifrt.Assume(false)
 	}
-	ew := &executableWorkflow{logger: vLogger{}, config: &config.Config{}, dag: dag, input: &vScope{},
-		stepRunData: runData, runnableSteps: runnables, lifecycles: lifecycles, outputSchema: outSchemas}
-	return ew, run
+	ew, ok := res.(*executableWorkflow)
+	verifrt.Assert(ok, "harness: Prepare returns the engine's prepared workflow")
+	return ew
 }
